@@ -237,6 +237,28 @@ impl Manager {
         lock.get_mut()[index.0] = None;
     }
 
+    /// Verification only: registers a waker slot, like `add_listener`, and returns its index.
+    #[cfg(all(feature = "verif-hooks", feature = "graceful-shutdown", feature = "async-networking"))]
+    #[doc(hidden)]
+    pub fn verif_add_waker_slot(&self) -> usize {
+        let mut lock = self.wakers.lock().unwrap();
+        let wakers = lock.get_mut();
+        wakers.push(None);
+        wakers.len() - 1
+    }
+    /// Verification only: what the accept future does with its slot when it's polled.
+    #[cfg(all(feature = "verif-hooks", feature = "graceful-shutdown", feature = "async-networking"))]
+    #[doc(hidden)]
+    pub fn verif_set_waker(&self, slot: usize, waker: Waker) {
+        self.set_waker(WakerIndex(slot), waker);
+    }
+    /// Verification only: what `AcceptManager::accept` does with its slot when it returns.
+    #[cfg(all(feature = "verif-hooks", feature = "graceful-shutdown", feature = "async-networking"))]
+    #[doc(hidden)]
+    pub fn verif_remove_waker(&self, slot: usize) {
+        self.remove_waker(WakerIndex(slot));
+    }
+
     /// Wraps [`Self`] in a [`Arc`] to use across [`tokio::task`]s.
     #[must_use]
     pub fn build(self) -> Arc<Self> {
